@@ -57,6 +57,10 @@ func inWorld(rt *rapid.T, opt hlsim.Options, body func(rt *rapid.T, w *hlsim.Wor
 		if err != nil {
 			rt.Fatalf("harness: building world: %v", err)
 		}
+		// clients may send the fields of a request in any order: in half of the cases every request of the case does
+		if rapid.Bool().Draw(rt, "shuffleRequestFields") {
+			w.FieldOrder = rapid.Uint64Range(1, 1<<62).Draw(rt, "fieldOrder")
+		}
 		w.Start()
 		defer func() {
 			w.Stop()
